@@ -314,7 +314,45 @@ def keep_for_solving(ctx, batch):
     return out
 
 
+def boundary_cli(ctx):
+    """parameter sets at and beyond the ends of the documented ranges, through the command line: a run may be refused
+    (then nothing is judged here - refusal is C15's claim), but whatever the generator ACCEPTS must yield a proper file"""
+    import math
+    sets = []
+    for opt in ("-p", "-q", "-r", "-t"):
+        for v in (0.0, 1.0, 1.5, -0.25, 1e-9, 1 - 1e-9, math.nan):
+            sets.append(["-s", "3", "-l", "2", "-w", "2", "-t", "0.9", opt, repr(v)])
+    for opt, vals in (("-m", (0, -1, 1)), ("-w", (0, -2)), ("-l", (0, -2)), ("-s", (-1,))):
+        for v in vals:
+            sets.append(["-l", "2", "-w", "2", opt, str(v)])
+    res = impl.run_cases([dict(op="rg_cli", scratch=bc.SCRATCH, argv=a, limit=60) for a in sets], limit=60, tag="c11bd")
+    for a, r in zip(sets, res):
+        ctx.evaluations += 1
+        inp = dict(argv=a)
+        if r.get("rc") != 0 and not r.get("files"):
+            ctx.count("boundary cli: refused")
+            continue
+        ctx.count("boundary cli: accepted")
+        games = None
+        if "read" in r:
+            try:
+                games = dec(r["read"])
+            except Exception:   # noqa: BLE001
+                games = None
+        if games is None or r.get("rc") != 0:
+            ctx.violation("the generator accepted %s (exit %s, files %s) but left no loadable three-game file"
+                          % (" ".join(a), r.get("rc"), r.get("files")), inp, impl=str(r)[:300])
+            continue
+        def val(o, dflt):
+            return int(a[a.index(o) + 1]) if o in a else dflt
+        probs = item_check((dict(L=val("-l", 3), W=val("-w", 3)), games))
+        if probs:
+            ctx.violation("the generator accepted %s and wrote a file that is not a proper three-game file: %s"
+                          % (" ".join(a), "; ".join(probs[:3])), inp)
+
+
 def run(ctx):
+    boundary_cli(ctx)
     import source_facts
     source_facts.check_layout(ctx, {'A': {'light': 0, 'robot_down': 1, 'robot_left_right': 2, 'prob': 3, 'total': 4, 'n_prob_groups': 1, 'n_robot_groups': 2}, 'B': {'light': 0, 'robot_down': 1, 'robot_left_right': 2, 'tile_break': 3, 'robot_down_break': 4, 'robot_left_break': 5, 'robot_right_break': 6, 'total': 7, 'n_prob_groups': 4, 'n_robot_groups': 2}, 'C': {'light': 0, 'robot_down': 1, 'robot_left_right': 2, 'robot_down_left_right': 3, 'tile_break': 4, 'robot_down_break': 5, 'robot_left_break': 6, 'robot_right_break': 7, 'light_red_break': 8, 'light_yellow_break': 9, 'total': 10, 'n_prob_groups': 6, 'n_robot_groups': 3}})
     import time
